@@ -94,6 +94,10 @@ func (cl *compiler) compileFunc(fn *ast.FuncDecl) *Func {
 
 	cl.params = make(map[string]int, cl.fnType.Params().Len())
 	cl.intParams = make(map[string]int, cl.fnType.Params().Len())
+	// Blank (or unnamed) parameters share one map key, so the
+	// parameters are counted separately from the maps.
+	numObjectParams := 0
+	numIntParams := 0
 	for i := 0; i < cl.fnType.Params().Len(); i++ {
 		p := cl.fnType.Params().At(i)
 		paramName := p.Name()
@@ -102,15 +106,17 @@ func (cl *compiler) compileFunc(fn *ast.FuncDecl) *Func {
 			panic(cl.errorUnsupportedType(fn.Name, paramType, paramName+" param"))
 		}
 		if typeIsInt(paramType) {
-			cl.intParams[paramName] = len(cl.intParams)
+			cl.intParams[paramName] = numIntParams
+			numIntParams++
 		} else {
-			cl.params[paramName] = len(cl.params)
+			cl.params[paramName] = numObjectParams
+			numObjectParams++
 		}
 	}
 
 	dbg := funcDebugInfo{
-		paramNames:    make([]string, len(cl.params)),
-		intParamNames: make([]string, len(cl.intParams)),
+		paramNames:    make([]string, numObjectParams),
+		intParamNames: make([]string, numIntParams),
 	}
 	for paramName, i := range cl.params {
 		dbg.paramNames[i] = paramName
@@ -128,8 +134,8 @@ func (cl *compiler) compileFunc(fn *ast.FuncDecl) *Func {
 		code:            cl.code,
 		constants:       cl.constants,
 		intConstants:    cl.intConstants,
-		numObjectParams: len(cl.params),
-		numIntParams:    len(cl.intParams),
+		numObjectParams: numObjectParams,
+		numIntParams:    numIntParams,
 		name:            cl.ctx.Package.Path() + "." + fn.Name.String(),
 	}
 	if len(cl.locals) != 0 {
